@@ -718,6 +718,9 @@ func (tr *translator) expr(x ast.Expr, e env) Sum {
 				if _, isMap := tr.info.TypeOf(n.Args[0]).Underlying().(*types.Map); isMap {
 					return SLen{M: tr.expr(n.Args[0], e)}
 				}
+				if bt, ok := tr.info.TypeOf(n.Args[0]).Underlying().(*types.Basic); ok && bt.Info()&types.IsString != 0 {
+					return SLen{M: tr.expr(n.Args[0], e)}
+				}
 			}
 		}
 		callee, _ := typeutil.Callee(tr.info, n).(*types.Func)
@@ -869,6 +872,13 @@ func (f *Facts) eval(s Sum, b map[*types.Var]Value) Value {
 		}
 		return f.Eval(x.Fn, args...)
 	case SLen:
+		if v := f.eval(x.M, b); v.Kind == VConst && v.C != nil && v.C.Kind() == constant.String {
+			return Value{Kind: VConst, C: constant.MakeInt64(int64(len(constant.StringVal(v.C)))), Type: types.Typ[types.Int]}
+		} else if v.Kind == VOther {
+			// the representative of "any other string": StringConsts puts "" into the tabulated domain of a summary
+			// that takes a length, so this one is not empty; its length is some other number
+			return Value{Kind: VOther, Type: types.Typ[types.Int]}
+		}
 		t, ok, bad := f.evalTable(x.M, b)
 		if !ok {
 			return bad
@@ -1048,6 +1058,7 @@ func (f *Facts) StringConsts(fn *types.Func) map[string]bool {
 				walkSum(a)
 			}
 		case SLen:
+			out[""] = true // a length test distinguishes the empty string
 			walkSum(x.M)
 		case SCmp:
 			walkSum(x.A)
